@@ -71,6 +71,13 @@ def vacuity(cases, strict):
                     n[t + ':table'] += 1
                 if any(s[2] for s in it['st']):
                     n[t + ':nowrap'] += 1
+            # blocks behind register names and in instruction-level comments: place, kind, width class
+            for cl in it['cls']:
+                parts = cl.split(':')
+                n['%s:%s-%s' % (t, parts[0], parts[1])] += 1
+                if parts[1] == 'tab':
+                    n['%s:%s-tab:%s' % (t, parts[0], parts[2])] += 1
+                    n['%s:%s-tab:%s' % (t, parts[0], parts[3])] += 1
         if t == 'skool':
             # the closing brace sna2skool adds: glued to a last line that then ends exactly at the width, or
             # pushed to a row of its own because the last line is full
@@ -83,6 +90,22 @@ def vacuity(cases, strict):
                         and a['n'] in (c['W'], c['W'] - 1)):
                     n['skool:closing-brace-pushed-from-full-line'] += 1
                     widths['pushed'].add(c['W'])
+        if t == 'asm':
+            # tables in places narrower than a description line (what stands in front of them is more than '; '):
+            # fitting exactly / one column too wide / in the band (available, line width - 2] / wider still
+            for l in c['out']:
+                if l['tab'] == 1 and l['n'] - l['cl'] > 2:
+                    place = 'ins' if l['kind'] == 'i' else 'reg'
+                    over = l['n'] - c['W']
+                    cls = ('fits-exactly' if over == 0 else 'fits' if over < 0 else 'over-by-1' if over == 1 else 'over')
+                    n['asm:%s-table-%s' % (place, cls)] += 1
+                    if over > 0 and l['cl'] <= c['W'] - 2 and l['kind'] == 'c':
+                        n['asm:reg-table-in-band'] += 1
+                        widths['band'].add(c['W'])
+                        if l['warn']:
+                            n['asm:reg-table-in-band-warned'] += 1
+                    if l['kind'] == 'c' and over <= 0:
+                        widths['regfit'].add(c['W'])
         for l in c['out']:
             if c['W'] and l['n'] > c['W']:
                 n[t + ':overlong-line'] += 1
@@ -99,11 +122,16 @@ def vacuity(cases, strict):
     need += ['%s:brace:%s' % (t, v) for t in ('asm', 'html', 'skool')
              for v in ('plain', 'open-first', 'close-last', 'both', 'nested', 'more-open', 'more-close')]
     need += ['skool:brace:close-then-open', 'skool:closing-brace-ends-at-W', 'skool:closing-brace-pushed-from-full-line']
+    need += ['%s:reg-%s' % (t, k) for t in ('asm', 'html', 'skool') for k in ('tab', 'list', 'tight-asm', 'tight-skool', 'plain')]
+    need += ['%s:ins-%s' % (t, k) for t in ('asm', 'html', 'skool') for k in ('tab', 'list')]
+    need += ['asm:reg-tab:' + k for k in wrapdrv.WCLS + ['exact', 'wrap']] + ['asm:ins-tab:' + k for k in wrapdrv.WCLS[:7]]
+    need += ['asm:%s-table-%s' % (p, k) for p in ('reg', 'ins') for k in ('fits-exactly', 'fits', 'over-by-1', 'over')]
+    need += ['asm:reg-table-in-band', 'asm:reg-table-in-band-warned']
     need += ['asm:table', 'html:table', 'skool:nowrap', 'asm:overlong-line', 'skool:overlong-line', 'asm:exactly-W',
              'skool:exactly-W', 'asm:warned', 'asm:table-line']
     missing = [k for k in need if not n[k]]
     # the off-by-one classes must be present at (nearly) every width 40..200, not just somewhere
-    for cls in ('glued', 'pushed', 'asmi', 'asmc', 'skooli', 'skoolc'):
+    for cls in ('glued', 'pushed', 'asmi', 'asmc', 'skooli', 'skoolc', 'band', 'regfit'):
         n['widths-covered:' + cls] = len(widths[cls])
         if len(widths[cls]) < 150:
             missing.append('%s at only %d of 161 widths' % (cls, len(widths[cls])))
@@ -137,6 +165,7 @@ def run(tier):
     cases = [c for p in parts for c in p]
     log('C18: %d documents, %d cases (%.1fs)' % (len(specs), len(cases), rep.timer.s()))
     drift = 0
+    narrow = []
     bare_lf = []
     allfails = {}
     for b in range(0, len(cases), 6000):
@@ -146,6 +175,7 @@ def run(tier):
         rep.add_tlc(rj, 'WrapCases', traces=len(part))
         log('C18: judged %d cases (%.1fs)' % (len(part), rep.timer.s()))
         drift += sum(1 for tag, _ in rj.notes if tag == 'DRIFT')
+        narrow += [b + int(v.split(',')[0]) - 1 for tag, v in rj.notes if tag == 'NARROW']
         bare_lf += [b + int(v.split(',')[0]) - 1 for tag, v in rj.notes if tag == 'TERMINATOR']
         for i, clause in fails:
             allfails[b + i] = clause
@@ -178,17 +208,26 @@ def run(tier):
                            inputs=wrapdrv.reproduce(d['seed'], d['docid'], d['W'], d['kind'], wd),
                            exp=c['exp'][int(ei) - 1] if ei and int(ei) <= len(c['exp']) else None, out=c['out']))
     counts = vacuity(cases, strict=not rep.violations)
-    rep.drift = drift + len(bare_lf)
+    rep.drift = drift + len(bare_lf) + len(narrow)
     rep.extra['drift_wrap_points_or_row_packing'] = drift
+    rep.extra['drift_table_not_narrowed_to_narrower_place'] = dict(
+        cases=len(narrow), what='skool2asm narrows a :w column only until the table is as wide as a description line '
+        '(line-width - 2, TableWriter.max_width), as documented for #TABLE; behind a register name or in an instruction '
+        'comment field the lines then exceed the line width although a narrower rendering would have fitted there. '
+        'More than the documentation promises (lead triage): counted; the warning is still demanded (warn-table, warn-row)',
+        example=cases[narrow[0]]['key'] if narrow else None,
+        repro="skool: '@start' / '; T' / ';' / '; .' / ';' / '; HL #TABLE(default,:w) { aaaa bbbb cccc dddd eeee ffff gggg hhhh "
+              "iiii jjjj kkkk llll mmmm nnnn ooo } TABLE#' / 'c32768 RET'; skool2asm -q -> 82-column lines + table warning")
     rep.extra['drift_bare_lf_in_crlf_mode'] = dict(
         cases=len(bare_lf), what='skool2asm with crlf=1 joins the lines of a wrapped register description with a bare LF '
         '(skoolasm.py print_registers); not part of C18 as stated (lead triage) - counted, pieces judged as lines',
         example=cases[bare_lf[0]]['key'] if bare_lf else None,
         repro="skool: '@start' / '; T' / ';' / '; .' / ';' / '; HL first second third fourth fifth sixth seventh eighth ninth "
               "tenth eleventh twelfth thirteenth fourteenth' / 'c40000 RET'; skool2asm -q -P crlf=1")
-    if drift or bare_lf:
-        print('NOTE property=C18 drift: %d cases differ from the greedy/row model, %d cases with bare LF in CRLF mode'
-              % (drift, len(bare_lf)))
+    if drift or bare_lf or narrow:
+        print('NOTE property=C18 drift: %d cases differ from the greedy/row model, %d cases with bare LF in CRLF mode, '
+              '%d cases with a :w table not narrowed below the description width in a narrower place'
+              % (drift, len(bare_lf), len(narrow)))
     for c in cases:
         if c['tool'] != 'gen':
             for it in c['exp']:
@@ -202,9 +241,15 @@ def run(tier):
                 'every line width 40..200 (sweep documents whose last comment line ends at avail-0..3 for skool2asm and '
                 'sna2skool) + random widths/instruction widths/indent/tab/crlf/comment-width-min; each document through '
                 'skool2asm.main, skool2html.main, sna2skool.main; distinct_nontrivial = distinct (tool, width, section '
-                'kind/group class, number of words)')
+                'kind/group class, number of words). Register descriptions and instruction-level comments also hold '
+                '#TABLE / #LIST blocks (alone / behind / in front of / between text, wrap flags, header rows, 1-3 columns, '
+                'with and without a :w column): every sweep document has three register tables whose widths are 3 of the '
+                '12 classes a-3..a+3, mid, t-1..t+2 (a = width left behind the register name, t = line width - 2) so that '
+                'each width sees the band (a, t], a list and a plain description ending at / near a, and one instruction '
+                'comment with a table of width a-3..a+3 of the comment field or a tight list')
     rep.assumptions = ['html.parser tokenises the entry pages (trusted projection)',
-                       'tables are generated without colspan/rowspan and with at most one :w column',
+                       'tables are generated without colspan/rowspan and with at most one :w column; at most one block per '
+                       'register description / instruction comment; block macros as macro arguments and in titles are not generated',
                        'word tokens carry braces only at their ends; control files use one directive per paragraph (no dot directives)',
                        'a line is measured in characters; a tab indent counts 8 columns for the width rule, 1 for the warning']
     rmworkdir('c18')
